@@ -211,6 +211,7 @@ Step(mm, e, meta) ==
       [] e.e = "UNHANDLED" -> R(mm, {"C09.NoUnhandled"})
       [] e.e = "HANG" -> R(mm, {"C04.Terminates"})
       [] e.e = "LOOP" -> OnLoop(mm, e, meta)
+      [] e.e = "LOOPKEEP" -> R([mm EXCEPT !.reuse.valid = FALSE], {})    \* a new loop while the old one stays open
       [] e.e = "END" -> OnEnd(mm, e, meta)
       [] OTHER -> R(mm, {})
 =============================================================================
